@@ -187,6 +187,8 @@ func (e *canonEnv) canon(v ssa.Value) *X {
 		return L("?param:" + x.Name())
 	case *ssa.Global:
 		return L("global:" + x.Name())
+	case *ssa.Function:
+		return L("func:" + strings.ReplaceAll(x.String(), modPath+"/", ""))
 	case *ssa.Alloc:
 		return L("?alloc:" + shortType(x.Type()))
 	case *ssa.FieldAddr:
